@@ -22,6 +22,7 @@ import ClipperVerif.Driver.C04
 import ClipperVerif.Driver.C12
 import ClipperVerif.Driver.AddPaths
 import ClipperVerif.Driver.C10Isect
+import ClipperVerif.Driver.AelOrder
 namespace Clipper.Driver
 open Clipper.Proto
 
@@ -49,7 +50,8 @@ def handlers : List (String → Option (P String)) := [
   C04.handle,
   C12.handle,
   AddPaths.handle,
-  C10Isect.handle
+  C10Isect.handle,
+  AelOrder.handle
 ]
 
 def dispatch1 (cmd : String) : Option (P String) :=
